@@ -37,6 +37,11 @@ def run(tier, seed):
         samples = []
         for (rc, o, e), f in zip(res, outs):
             if rc != 0 or not os.path.exists(f):
+                lp = vlib.library_panic(e)
+                if lp:
+                    findings.append("during a chunked transfer: " + lp)
+                    vlib.save_replay(prop, {"stderr": e[-4000:]}, "panic")
+                    continue
                 raise Inconclusive("chunkio failed: " + (e or o)[-1500:])
             d = json.load(open(f))
             cases += d["cases"]
